@@ -46,6 +46,8 @@ rw_fn r_rw_rdlock, r_rw_wrlock, r_rw_unlock, r_rw_tryrdlock, r_rw_trywrlock;
 create_fn r_create;
 join_fn r_join;
 yield_fn r_yield;
+// libc's syscall(): the scheduler's own futex calls must not go through vf/sched_io.cpp's interposer
+long (*r_syscall)(long, ...) = nullptr;
 nanosleep_fn r_nanosleep;
 clocknanosleep_fn r_clock_nanosleep;
 usleep_fn r_usleep;
@@ -71,6 +73,7 @@ void resolve()
   r_create = (create_fn)dlsym(RTLD_NEXT, "pthread_create");
   r_join = (join_fn)dlsym(RTLD_NEXT, "pthread_join");
   r_yield = (yield_fn)dlsym(RTLD_NEXT, "sched_yield");
+  r_syscall = (long (*)(long, ...))dlsym(RTLD_NEXT, "syscall");
   r_nanosleep = (nanosleep_fn)dlsym(RTLD_NEXT, "nanosleep");
   r_clock_nanosleep = (clocknanosleep_fn)dlsym(RTLD_NEXT, "clock_nanosleep");
   r_usleep = (usleep_fn)dlsym(RTLD_NEXT, "usleep");
@@ -85,9 +88,9 @@ long futexWait(std::atomic<int> *w, int val, int timeoutMs)
   struct timespec ts;
   ts.tv_sec = timeoutMs / 1000;
   ts.tv_nsec = (long)(timeoutMs % 1000) * 1000000L;
-  return syscall(SYS_futex, (int *)w, FUTEX_WAIT_PRIVATE, val, timeoutMs >= 0 ? &ts : nullptr, nullptr, 0);
+  return r_syscall(SYS_futex, (int *)w, FUTEX_WAIT_PRIVATE, val, timeoutMs >= 0 ? &ts : nullptr, nullptr, 0);
 }
-void futexWake(std::atomic<int> *w) { syscall(SYS_futex, (int *)w, FUTEX_WAKE_PRIVATE, INT_MAX, nullptr, nullptr, 0); }
+void futexWake(std::atomic<int> *w) { r_syscall(SYS_futex, (int *)w, FUTEX_WAKE_PRIVATE, INT_MAX, nullptr, nullptr, 0); }
 
 std::atomic_flag g_spin = ATOMIC_FLAG_INIT;
 struct Lock
